@@ -693,15 +693,13 @@ impl<T: PPGEvaluatorStrategy> PPGEvaluator<T> {
         }
 
         let filter_if_renamed = |job_id: &str| -> bool {
-            if job_id.contains(":::") {
-                let last_time = multi_parts_to_jobs.get(job_id);
-                match last_time {
+            // multi_parts_to_jobs is keyed by the individual outputs
+            job_id
+                .split(":::")
+                .all(|part| match multi_parts_to_jobs.get(part) {
                     Some(last_time) => last_time == job_id,
                     None => true, //not present.
-                }
-            } else {
-                return true;
-            }
+                })
         };
 
         let mut out = self.history.clone();
